@@ -285,7 +285,12 @@ def run(ck, F, E):
             hb = F.bodies.get(path_)
             if hb is None or depth > 2:
                 return False
-            for (ob, c) in deep_calls(F, hb, lambda p: p.startswith("abasic_core::arrays::"), depth=2):
+            from lib import with_closures
+            pairs = list(deep_calls(F, hb, lambda p: p.startswith("abasic_core::arrays::"), depth=2))
+            for owner in {o.path: o for (o, _c) in pairs}.values():
+                for cb in with_closures(F, owner)[1:]:      # `.map(|m| m.checked_add(1))`
+                    pairs += [(cb, cc) for cc in cb.calls()]
+            for (ob, c) in pairs:
                 if c.callee.split("::")[-1] in ("checked_add", "saturating_add", "wrapping_add") and len(c.args) > 1:
                     a = strip_expr(ob.expr(c.args[1]))
                     if a[0] == "const" and a[1].get("int") == 1:
